@@ -282,6 +282,13 @@ class HierDictDocument(DictDocument):
                     elif isinstance(inst, six.binary_type):
                         retval = self.unicode_from_bytes(cls, inst)
 
+                        # validate_string() above only saw text. The text that
+                        # arrived as bytes (msgpack bin, yaml !!binary) has the
+                        # same length constraints.
+                        if validator is self.SOFT_VALIDATION \
+                                    and not cls.validate_string(cls, retval):
+                            raise ValidationError([key, retval])
+
                     else:
                         retval = inst
 
